@@ -443,6 +443,14 @@ func (in *Interp) execStmt(fr *Frame, s Stmt) ctl {
 			if ce, ok := st.Exprs[0].(*CallExpr); ok {
 				// proper tail call
 				fn, args := in.evalCallParts(fr, ce)
+				// a value that cannot be called fails here, in the calling function's frame
+				switch fn.(type) {
+				case *Closure, *Builtin:
+				default:
+					if in.metaField(fn, "__call") == nil {
+						in.fault("attempt to call a " + TypeName(fn) + " value")
+					}
+				}
 				fr.tail, fr.tailFn, fr.ret = true, fn, args
 				return ctlReturn
 			}
@@ -1228,6 +1236,10 @@ func (in *Interp) length(v Value) Value {
 	case *OStr:
 		unspecified("length of an opaque string")
 	case *Table:
+		if x.Meta != nil && x.Meta.Get("__len") != nil {
+			// 5.1 takes the primitive length of a table; gopher-lua honours __len (as 5.2 does) - no listed property fixes it
+			unspecified("length of a table whose metatable has __len")
+		}
 		n, unique := x.Border()
 		if !unique {
 			unspecified("length of a table with more than one border")
